@@ -85,13 +85,18 @@ def run(chk):
     if chk.want("R01.7"):
         from ..inherit import inherit
         inherit(chk, "R01.7", "c12", ["R12.5"])
+    chk.rule("R01.8", "the image of a site under an operation is R.x + t: SymmetryOperation.apply, which fills every block of the orbit buffer, "
+                      "is the same affine map on (N,3), homogeneous (N,4) and Cartesian input (= C11 R11.6)", 3)
+    if chk.want("R01.8"):
+        from ..inherit import inherit
+        inherit(chk, "R01.8", "c11", ["R11.6"])
     chk.rule("R01.6", "memo discipline of class Crystal (= C14 R14.2): every state-changing method drops every memoised quantity, including any newly introduced cache", 2)
     if chk.want("R01.6"):
         from .c14 import crystal_memo_rule
         crystal_memo_rule(chk, "R01.6")
     chk.assume("which images coincide (KD-tree distances within the tolerance) and float wrap behaviour at x = -K are not decided")
     chk.assume("pair iteration of the sparse distance matrix is row-major, so chains of coincident images sum into the lowest index")
-    chk.assume("the operation list is the group (C02) and decode/apply are the affine map (C11)")
+    chk.assume("the operation list is the group (C02) and the integer codes decode to the operations (C11 R11.1-R11.5)")
 
 
 def _identity_search(u: P, ops_keys):
